@@ -58,6 +58,12 @@ Definition srv_exec_bg (s : server) (conn : Z) (now nowms : Z) (args : list byte
     let '(res, tend, rest, s1, outs) :=
         if cut then block_n (srv_poll lft keys conn) nowms (Z.to_pos (wd_ms / 100)) wd_ms acts s
         else block (srv_poll lft keys conn) nowms t acts s in
+    (* a command cancelled by the watchdog does one last polling round before it gives up; what it
+       pops then is gone although the harness no longer looks at the reply *)
+    let s1 := match res with
+              | None => if cut then match srv_poll lft keys conn s1 tend with Some (_, s1') => s1' | None => s1 end else s1
+              | Some _ => s1
+              end in
     let '(outs2, s2) := run_evs rest s1 in
     (match res with Some r => r | None => if cut then blocked_marker else RNil end, outs ++ outs2, s2, tend)
   | None =>
